@@ -128,38 +128,39 @@ def nodupB : List String → Bool
   | [] => true
   | a :: r => !r.contains a && nodupB r
 
-/-- `Sync`: serializer and deserializer resolve every field of the level to the same string key
-    (in particular no field of the level is mapped to `DoNotSerialize`) -/
-def syncOK (ms M : MDict) (kvs : List (String × J)) : Bool :=
-  kvs.all fun p => isKeyAt ms p.1 && isKeyAt M p.1 && (kOf M p.1 == kOf ms p.1)
+def isDnsAt (m : MDict) (f : String) : Bool :=
+  match lookupR (.fld f) m with
+  | some .dns => true
+  | _ => false
 
-/-- `NoDot`: no key of the level is read as a dotted path -/
+/-- `Sync`: serializer and deserializer resolve every field of the level alike — both to the same
+    string key, or both to `DoNotSerialize` and then the field is absent (no field is dropped) -/
+def syncOK (ms M : MDict) (kvs : List (String × J)) : Bool :=
+  kvs.all fun p =>
+    (isKeyAt ms p.1 && isKeyAt M p.1 && (kOf M p.1 == kOf ms p.1))
+    || (isDnsAt ms p.1 && isDnsAt M p.1 && p.2.isNull)
+
+/-- `NoDot`: no string key of the level is read as a dotted path -/
 def noDotOK (S : StrFns) (ms : MDict) (kvs : List (String × J)) : Bool :=
-  kvs.all fun p => S.split (kOf ms p.1) == [kOf ms p.1]
+  kvs.all fun p => !isKeyAt ms p.1 || (S.split (kOf ms p.1) == [kOf ms p.1])
 
 /-- populated fields have pairwise distinct keys (implied by injectivity of the aggregate on the class's fields) -/
 def injOK (ms : MDict) (kvs : List (String × J)) : Bool := nodupB (popKeys ms kvs)
 
-/-- an absent field's key is not the key of a populated field (implied by injectivity as well) -/
+/-- an absent field's string key is not the key of a populated field (implied by injectivity as well) -/
 def absentKeyOK (ms : MDict) (kvs : List (String × J)) : Bool :=
-  kvs.all fun p => !p.2.isNull || !(popKeys ms kvs).contains (kOf ms p.1)
+  kvs.all fun p => !p.2.isNull || !isKeyAt ms p.1 || !(popKeys ms kvs).contains (kOf ms p.1)
 
-/-- `NoFallbackCapture`: no absent field's own *name* is the key of a populated field
-    (not needed under `use_strict_mapping`) -/
-def noCaptureOK (ms : MDict) (strict : Bool) (kvs : List (String × J)) : Bool :=
-  strict || kvs.all fun p => !p.2.isNull || !(popKeys ms kvs).contains p.1
+/-- the hypotheses of the round trip at one level.  (`NoFallbackCapture` is no longer among them:
+    since /repo f476845 it follows from `Sync` and `absentKeyOK`; the strict flag is irrelevant.) -/
+def levelOK (S : StrFns) (ms M : MDict) (_strict : Bool) (kvs : List (String × J)) : Bool :=
+  syncOK ms M kvs && noDotOK S ms kvs && injOK ms kvs && absentKeyOK ms kvs
 
-def levelOK (S : StrFns) (ms M : MDict) (strict : Bool) (kvs : List (String × J)) : Bool :=
-  syncOK ms M kvs && noDotOK S ms kvs && injOK ms kvs && absentKeyOK ms kvs && noCaptureOK ms strict kvs
-
-/-- the domain in which the property demands the round trip: every field of the level has a string
-    key on the serializer's side, no dotted key, populated keys distinct, absent keys not populated -/
+/-- the domain in which the property demands the round trip: no populated field is dropped (every
+    populated field has a string key on the serializer's side), no dotted key, populated keys
+    distinct, absent fields' keys not populated -/
 def levelDom (S : StrFns) (ms _M : MDict) (_strict : Bool) (kvs : List (String × J)) : Bool :=
   (kvs.all fun p => p.2.isNull || isKeyAt ms p.1) && noDotOK S ms kvs && injOK ms kvs && absentKeyOK ms kvs
-
-/-- no field of the level is mapped to a non-string on either side -/
-def levelKeys (ms M : MDict) (_strict : Bool) (kvs : List (String × J)) : Bool :=
-  kvs.all fun p => isKeyAt ms p.1 && isKeyAt M p.1
 
 /-- a scalar field holds an integer, or nothing when optional -/
 def scalarOK (opt : Bool) (v : J) : Bool :=
